@@ -630,6 +630,25 @@ def inplace_followups(cls, res, pool, labelled):
             pass
 
 
+WARM_QUERIES = ("tmax", "tmin", "tmean", "trange", "tstd", "tvar", "targmax", "targmin")
+
+
+def warm(ctx, obj, psnap, sig, case):
+    """Before the event: ask the object every read-only question once (raw values, summaries on both scales,
+    so that whatever the object remembers from answering them is in place when the event is applied -- the
+    event's successor is then judged as usual (its raw values must be those of the model).  The questions themselves
+    must leave every observable field as it was."""
+    for f in ([lambda: obj.unscale()] +
+              [(lambda q=q, u=u: getattr(obj, q)(unscale=u)) for q in WARM_QUERIES for u in (True, False)]):
+        try:
+            f()
+        except Exception:  # noqa: BLE001
+            pass
+    f = snap_same(snap(obj), psnap)
+    if f is not None:
+        ctx.violation(sig + ":query-changed-state", f"read-only queries (unscale, summaries) changed field {f}", case)
+
+
 def step(ctx, cls, clskey, psnap, taxa, fresh, built, ev, pool, t, case, full, followups=False):
     """Apply one event to a fresh copy of the parent state.  Returns a dict: status 'exception' (no result),
     'pruned' (result exists but its raw values / standardisation are broken: successor not expanded) or 'ok';
@@ -640,6 +659,7 @@ def step(ctx, cls, clskey, psnap, taxa, fresh, built, ev, pool, t, case, full, f
     used = []
     box = {}
     before = nviol(ctx)
+    warm(ctx, obj, psnap, sig, case)
     ctx.evaluations += 1
     ctx.transitions += 1
     ctx.count(f"op:{clskey}:{method_name(ev)}")
